@@ -252,7 +252,7 @@ def build_ctl(scn, pool, log, interval):
         flat = []
         for thr, sid in scn["slaves"]:
             flat += [thr / 16, mk(sid)]
-        return DemandSwitch(pool, mk(scn["default"]), *flat, interval=interval)
+        return DemandSwitch(pool, mk(scn["default"]), *flat, interval=interval) if interval != 1 else DemandSwitch(pool, mk(scn["default"]), *flat)
     raise ValueError(k)
 
 
